@@ -104,6 +104,14 @@ def _dict_key_cast(key: Any) -> Any:
     return key
 
 
+def multiply(op1: Any, op2: Any) -> Any:
+    # explicitly cast to Decimal: no multiplication of big integers, no repetition of strings and lists
+    if not isinstance(op1, (Decimal_, int, float)) or not isinstance(op2, (Decimal_, int, float)):
+        raise ParserError('Can\'t multiply non-numbers')
+
+    return Decimal(op1) * Decimal(op2)
+
+
 def _get_item(container: Any, key: Any) -> Any:
     key = _key_cast(container, key)
 
@@ -150,7 +158,7 @@ def _set_with_op(container: Any, key: Any, op: str, value: Any) -> Any:
     elif op == '-=':
         container[key] -= value
     elif op == '*=':
-        container[key] *= value
+        container[key] = multiply(container[key], value)
     elif op == '/=':
         container[key] /= value
     else:
